@@ -32,13 +32,6 @@ Definition style_at (cs : cols) (j : Z) : option Z :=
   match find_col j cs with Some c => c_style c | None => None end.
 Definition hidden_at (cs : cols) (j : Z) : bool :=
   match find_col j cs with Some c => c_hidden c | None => false end.
-(* true when the column lies in a descriptor that is not exactly [j, j] *)
-Definition spans (cs : cols) (j : Z) : bool :=
-  match find_col j cs with
-  | Some c => negb ((c_min c =? j) && (c_max c =? j))
-  | None => false
-  end.
-
 Section Cols.
 Variables down up : Z -> Z.
 
@@ -65,8 +58,8 @@ Definition get_column_style (cs : cols) (j : Z) : outcome (option Z) :=
 
 (* ---- set_column_width_and_style: the descriptor surgery ------------------------------------
    loop over the vector: exact hit -> update in place; inside a wider descriptor -> replace it by
-   pre / col / post (pre and post only when non-empty) AND col.style = old.style (the style that
-   was passed in is overwritten); column < min -> insert here; end of vector -> push. *)
+   pre / col / post (pre and post only when non-empty; col carries the width, hidden flag and
+   style that were passed in); column < min -> insert here; end of vector -> push. *)
 Fixpoint place (j : Z) (nc : col) (cs : cols) : cols :=
   match cs with
   | [] => [nc]
@@ -77,7 +70,7 @@ Fixpoint place (j : Z) (nc : col) (cs : cols) : cols :=
         else
           let pre := mkCol (c_min c) (j - 1) (c_width c) (c_custom c) (c_hidden c) (c_style c) in
           let post := mkCol (j + 1) (c_max c) (c_width c) (c_custom c) (c_hidden c) (c_style c) in
-          let mid := mkCol j j (c_width nc) (c_custom nc) (c_hidden nc) (c_style c) in
+          let mid := mkCol j j (c_width nc) (c_custom nc) (c_hidden nc) (c_style nc) in
           (if j =? c_min c then [] else [pre]) ++ mid :: (if j =? c_max c then [] else [post]) ++ r
       else if j <? c_min c then nc :: c :: r
       else c :: place j nc r
@@ -99,15 +92,14 @@ Definition set_column_hidden (cs : cols) (j : Z) (hidden : bool) : outcome cols 
   obind (get_column_style cs j) (fun style =>
   set_column_width_and_style cs j width hidden style).
 
-(* NB get_column_width, not get_actual_column_width: 0 for a hidden column *)
 Definition set_column_style (cs : cols) (j s : Z) : outcome cols :=
-  let width := match get_column_width cs j with Ok w => w | _ => DEFAULT_COLUMN_WIDTH end in
+  let width := match get_actual_column_width cs j with Ok w => w | _ => DEFAULT_COLUMN_WIDTH end in
   obind (is_column_hidden cs j) (fun hidden =>
   set_column_width_and_style cs j width hidden (Some s)).
 
 (* ---- delete_column_style ---------------------------------------------------------------------
    the containing descriptor (exact or wider) is replaced by pre / col / post where col has
-   style None and hidden false and is only kept when custom_width *)
+   style None, keeps width and hidden flag, and is only kept when custom_width or hidden *)
 Fixpoint unstyle (j : Z) (cs : cols) : cols :=
   match cs with
   | [] => []
@@ -115,8 +107,8 @@ Fixpoint unstyle (j : Z) (cs : cols) : cols :=
       if covers c j then
         let pre := mkCol (c_min c) (j - 1) (c_width c) (c_custom c) (c_hidden c) (c_style c) in
         let post := mkCol (j + 1) (c_max c) (c_width c) (c_custom c) (c_hidden c) (c_style c) in
-        let mid := mkCol j j (c_width c) (c_custom c) false None in
-        (if j =? c_min c then [] else [pre]) ++ (if c_custom c then [mid] else [])
+        let mid := mkCol j j (c_width c) (c_custom c) (c_hidden c) None in
+        (if j =? c_min c then [] else [pre]) ++ (if c_custom c || c_hidden c then [mid] else [])
           ++ (if j =? c_max c then [] else [post]) ++ r
       else if j <? c_min c then c :: r
       else c :: unstyle j r
@@ -143,38 +135,11 @@ Definition apply_cop (cs : cols) (o : cop) : outcome cols :=
 Definition cop_col (o : cop) : Z :=
   match o with SetWidth j _ => j | SetHidden j _ => j | SetStyle j _ => j | DelStyle j => j end.
 
-Definition oz_eqb (a b : option Z) : bool :=
-  match a, b with Some x, Some y => x =? y | None, None => true | _, _ => false end.
-
-(* The situations in which the code is known to break the frame property (F23).  The class is
-   tight: ColsProofs shows the property for every step outside it and its failure for every
-   step inside it.
-   (a) set_column_style on a column inside a multi-column descriptor whose style differs:
-       the new style is overwritten by the descriptor's;
-   (b) set_column_style on a hidden column of non-zero width: the width becomes 0;
-   (c) delete_column_style on a hidden column: the column becomes visible. *)
-Definition defect_cop (cs : cols) (o : cop) : bool :=
-  match o with
-  | SetStyle j s =>
-      is_valid_column_number j && negb (shown_width_at cs j <? 0) &&
-      ((spans cs j && negb (oz_eqb (style_at cs j) (Some s))) ||
-       (hidden_at cs j && negb (width_at cs j =? 0)))
-  | DelStyle j => is_valid_column_number j && hidden_at cs j
-  | _ => false
-  end.
-
 (* a failing call returns before any mutation: the state is kept *)
 Definition step_cop (cs : cols) (o : cop) : cols :=
   match apply_cop cs o with Ok cs' => cs' | _ => cs end.
 
 Definition run_cops (cs : cols) (os : list cop) : cols := fold_left step_cop os cs.
-
-(* no step of the history falls into the defect class *)
-Fixpoint clean_run (cs : cols) (os : list cop) : bool :=
-  match os with
-  | [] => true
-  | o :: r => negb (defect_cop cs o) && clean_run (step_cop cs o) r
-  end.
 
 End Cols.
 
@@ -206,7 +171,7 @@ Definition abs_step (a : acols) (o : cop) : acols :=
       (* the call re-validates the width it read back: a negative one is refused *)
       if is_valid_column_number j && negb (a_width a j <? 0) then mkA (a_width a) (upd (a_hidden a) j b) (a_style a) else a
   | SetStyle j s =>
-      if is_valid_column_number j && negb ((if a_hidden a j then 0 else a_width a j) <? 0) then mkA (a_width a) (a_hidden a) (upd (a_style a) j (Some s)) else a
+      if is_valid_column_number j && negb (a_width a j <? 0) then mkA (a_width a) (a_hidden a) (upd (a_style a) j (Some s)) else a
   | DelStyle j =>
       if is_valid_column_number j then mkA (a_width a) (a_hidden a) (upd (a_style a) j None) else a
   end.
@@ -240,10 +205,19 @@ Definition aget (a : attr) (m : acols) (j : Z) : aval :=
   | Style => VStyle (a_style m j)
   end.
 
-(* the property C29 for columns, at full strength (no exclusion) *)
+(* the property C29 for columns, at full strength *)
 Definition cols_frame_statement (down up : Z -> Z) : Prop :=
   forall cs o j' at', wf cs -> (cop_col o, cop_attr o) <> (j', at') ->
   get up at' (step_cop down up cs o) j' = get up at' cs j'.
 Definition cols_readback_statement (down up : Z -> Z) : Prop :=
   forall cs o cs', wf cs -> apply_cop down up cs o = Ok cs' ->
   get up (cop_attr o) cs' (cop_col o) = cop_val o.
+
+Definition agrees (up : Z -> Z) (cs : cols) (a : acols) : Prop :=
+  forall j, width_at up cs j = a_width a j /\ hidden_at cs j = a_hidden a j /\
+            style_at cs j = a_style a j.
+
+(* histories: the getters read three independent total maps updated pointwise *)
+Definition cols_history_statement (down up : Z -> Z) : Prop :=
+  forall cs os, wf cs ->
+  agrees up (run_cops down up cs os) (fold_left abs_step os (abs_of (width_at up) cs)).
